@@ -309,7 +309,7 @@ META = {
     "level": "other",
     "explanation": "V1-V4 for the POST-form verifier (signature over the policy field, compared before acceptance, secret looked up under the "
                    "form's credential); the parsed form is published only on the verified path; forward taint of the policy field shows whether "
-                   "it is ever decoded/evaluated; form-field table. The file part's bytes (boundary scanner) and policy semantics are not decided. Also: form field names are stored lower-cased because consumers compare them byte-for-byte; the file part is buffered to the end of its stream.",
+                   "it is ever decoded/evaluated; form-field table. The file part's bytes (boundary scanner) and policy semantics are not decided. Also: form field names are stored lower-cased because consumers compare them byte-for-byte; the file part is buffered to the end of its stream. Round 4: the form verifier is entered only when the request method is POST (R7).",
     "not_decided": ["file-part bytes exact (FileStream boundary scanner: C09 territory)", "policy semantics (only its presence on the accept path is checked)",
                     "base64/JSON semantics"],
     "assumptions": ["rustc nightly MIR construction"],
